@@ -15,10 +15,11 @@ DRIVERS = {
     'sqf_yylex': {'vm': 'sqf_yylex'},
     'array_ops': {'vm': 'array_ops'},
     'while_loop': {'vm': 'while_loop'},
+    'waituntil': {'vm': 'waituntil'},
     'operators_total': {'vm': 'operators_total'},
     'runtime_core': {'vm': 'runtime_core'},
     'runtime_execute': {'vm': 'runtime_step'},
-    'runtime_sched': {'vm': 'runtime_step'},
+    'runtime_sched': {'vm': 'waituntil'},
     'frame': {'vm': 'runtime_step'},
 }
 
